@@ -5,6 +5,7 @@ package gen
 import (
 	"crypto/sha256"
 	"fmt"
+	"sort"
 
 	"pgregory.net/rapid"
 
@@ -166,4 +167,33 @@ func ValidIndicesOfCount(n int) *rapid.Generator[[]int] {
 		last := sol[rapid.IntRange(0, len(sol)-1).Draw(t, "last")]
 		return append(prefix, last)
 	})
+}
+
+// ExtremeIndices returns the indices of a valid n-word sentence made of the longest (or
+// shortest) words of the list, measured in bytes: the sentences whose byte length is as far
+// from a random sentence's as the list allows. variant rotates through the top words.
+func ExtremeIndices(l ref.Lang, n int, longest bool, variant int) []int {
+	g := ref.Golden(l)
+	order := make([]int, len(g))
+	for i := range order {
+		order[i] = i
+	}
+	sort.SliceStable(order, func(a, b int) bool {
+		if longest {
+			return len(g[order[a]]) > len(g[order[b]])
+		}
+		return len(g[order[a]]) < len(g[order[b]])
+	})
+	prefix := make([]int, n-1)
+	for i := range prefix {
+		prefix[i] = order[(i/3+variant)%24] // the 24 most extreme words, each repeated
+	}
+	sol := ref.SolveLast(prefix)
+	best := sol[0]
+	for _, x := range sol {
+		if (longest && len(g[x]) > len(g[best])) || (!longest && len(g[x]) < len(g[best])) {
+			best = x
+		}
+	}
+	return append(prefix, best)
 }
